@@ -548,26 +548,33 @@ func VerifC16_SyncTarget() {
 	if removeFinalizer {
 		rt.Cover("sync/finalizer-removed")
 	}
-	var main env.Req
+	// What has to be sent: a status request when the status differs and the
+	// resource has the subresource; a regular update when anything else differs
+	// (or the status differs and there is no subresource). A regular update
+	// after a status-only change has no effect and may be sent or left out.
+	metaDiffers := labelsDiffer || annDiffer || removeFinalizer
 	if statusDiffers && hasSub {
 		rt.Cover("sync/status-subresource-then-update")
-		rt.Assert(len(wr) == 2, "sync/expected-updatestatus-then-update")
-		if len(wr) != 2 {
+		rt.Assert(len(wr) == 2 || (len(wr) == 1 && !metaDiffers), "sync/expected-updatestatus-then-update")
+		if len(wr) != 2 && !(len(wr) == 1 && !metaDiffers) {
 			return
 		}
 		st := wr[0]
-		main = wr[1]
 		rt.Assert(st.Sub == "status", "sync/first-request-not-updatestatus")
-		rt.Assert(main.Sub == "", "sync/second-request-not-update")
 		// the status request is built from the cached target, own finalizer still on it
 		es := e
 		es.finalizers = finalizers
 		verifC16AssertBody(st.Body, es, "sync/status-body")
 		rt.Assert(st.Body.GetResourceVersion() == before.GetResourceVersion(), "sync/status-body-resourceVersion")
-		rt.Assert(main.Pre != nil, "sync/target-vanished")
-		if main.Pre != nil {
-			rt.Assert(main.Pre.GetResourceVersion() != before.GetResourceVersion(), "sync/env-did-not-bump-resourceVersion")
-			rt.Assert(main.Body.GetResourceVersion() == main.Pre.GetResourceVersion(), "sync/update-does-not-carry-resourceVersion-of-updatestatus")
+		if len(wr) == 2 {
+			main := wr[1]
+			rt.Assert(main.Sub == "", "sync/second-request-not-update")
+			rt.Assert(main.Pre != nil, "sync/target-vanished")
+			if main.Pre != nil {
+				rt.Assert(main.Pre.GetResourceVersion() != before.GetResourceVersion(), "sync/env-did-not-bump-resourceVersion")
+				rt.Assert(main.Body.GetResourceVersion() == main.Pre.GetResourceVersion(), "sync/update-does-not-carry-resourceVersion-of-updatestatus")
+			}
+			verifC16AssertBody(main.Body, e, "sync/update-body")
 		}
 	} else {
 		if statusDiffers {
@@ -577,11 +584,11 @@ func VerifC16_SyncTarget() {
 		if len(wr) != 1 {
 			return
 		}
-		main = wr[0]
+		main := wr[0]
 		rt.Assert(main.Sub == "", "sync/updatestatus-without-status-change-or-subresource")
 		rt.Assert(main.Body.GetResourceVersion() == before.GetResourceVersion(), "sync/update-body-resourceVersion")
+		verifC16AssertBody(main.Body, e, "sync/update-body")
 	}
-	verifC16AssertBody(main.Body, e, "sync/update-body")
 
 	// ---- the stored target afterwards ----
 	stored := w.Srv.Peek(res.Name, "ns", "p")
